@@ -314,6 +314,7 @@ type c1runner struct {
 	note    func(i int, name string, texts []string) // progress record before an evaluation
 	mu       sync.Mutex
 	verdicts map[string]c1verdict
+	nMin     int
 }
 
 // confirm applies the strict rule to a failing pair that the classifier attributes to the
@@ -557,6 +558,28 @@ func (x *c1runner) check(p c1prog, r *Rng) int {
 		if cls == "" && p.stream == "corpus" {
 			cls = c1corpusClass(p.name, "")
 		}
+		if cls == "" && rec["minimal_p"] == nil && x.nMin < 40 {
+			// unclassified failures are delta-debugged too (within the original differing
+			// paths and kinds): the replay holds a minimal pair, and when that minimal pair is
+			// strictly an instance of ONE known finding the failure is that finding
+			x.nMin++
+			x.mark(p, []string{"// while minimising\n" + p.src})
+			if min, f, ok := c1MinimiseProg(p, "", 6000, []c1arr{recipe}); ok {
+				rec["minimal_p"], rec["minimal_p_rearranged"], rec["minimal_diff"] = min.src, f.texts, f.diff
+				if f.cls != "" {
+					var okS bool
+					var newCls string
+					if f.byRule {
+						okS, _, newCls = c1Strict2(min, f.texts, f.cls, nil)
+					} else {
+						okS, _, newCls = c1Strict2(min, f.texts, f.cls, f.found)
+					}
+					if okS {
+						cls = newCls
+					}
+				}
+			}
+		}
 		c.Direct(false, cls, "canon(eval P) != canon(eval P'): "+c1diffString(diffs), rec)
 	}
 	c.Case(p.src, nontrivial && strings.Contains(base.canon, ","))
@@ -701,6 +724,9 @@ func c1classify(p c1prog, base, res c1res, diffs []c1diff, texts ...string) (str
 			c1emptyOrTopRe.ReplaceAllString(sa, "⊤") == c1emptyOrTopRe.ReplaceAllString(sb, "⊤"):
 			// the same `{}` versus `_` difference inside a disjunct or another untracked part
 			found["top-unified-with-struct-holding-failing-comprehension"] = true
+		case compr && !embRefSyn && d.kind == "err-vs-value" && (sa == "_|_(incomplete)" || sb == "_|_(incomplete)"):
+			// a reference into a struct whose comprehension cannot be decided yet
+			found["incomplete-placement-through-reference-into-struct-with-pending-comprehension"] = true
 		case d.kind == "err-class" && hasRef && compr:
 			found["missing-field-reference-inside-comprehension-fatal-vs-incomplete"] = true
 		case d.kind == "err-class" && hasRef:
@@ -752,6 +778,7 @@ func c1classify(p c1prog, base, res c1res, diffs []c1diff, texts ...string) (str
 		"self-reference-inside-disjunction-or-comprehension", "cyclic-mutual-constraint-error-placement",
 		"default-order-several-marked-disjunctions",
 		"top-unified-with-struct-holding-failing-comprehension",
+		"incomplete-placement-through-reference-into-struct-with-pending-comprehension",
 		"missing-field-reference-inside-comprehension-fatal-vs-incomplete",
 		"missing-field-reference-fatal-vs-incomplete",
 		"closedness-through-sibling-field-references-depends-on-order", "error-placement-through-reference",
@@ -824,6 +851,7 @@ var c1classShape = map[string]string{
 	"list-from-field-comprehension-order":                      "L",
 	"missing-field-reference-fatal-vs-incomplete":              "",
 	"missing-field-reference-inside-comprehension-fatal-vs-incomplete": "C",
+	"incomplete-placement-through-reference-into-struct-with-pending-comprehension": "C",
 	"error-placement-through-reference":                        "",
 	"cyclic-mutual-constraint-error-placement":                 "*",
 	"disjunct-set-differs-by-one-listed-disjunct":              "*",
@@ -1488,6 +1516,7 @@ type c1slot struct {
 	gen   *Rng // nil for corpus programs
 	free  bool
 	refs  bool
+	lists bool
 	depth int
 	seed  *Rng // rearrangement seed
 }
@@ -1509,6 +1538,10 @@ func c1Slots(c *Cfg, repo string, r *Rng) []c1slot {
 	rr := r.Sub()
 	for i := 0; i < c.Pick(300, 1500); i++ {
 		slots = append(slots, c1slot{prog: c1prog{name: fmt.Sprintf("refs#%d", i), stream: "refs"}, gen: rr.Sub(), refs: true})
+	}
+	lr := r.Sub()
+	for i := 0; i < c.Pick(250, 1500); i++ {
+		slots = append(slots, c1slot{prog: c1prog{name: fmt.Sprintf("lists#%d", i), stream: "lists"}, gen: lr.Sub(), lists: true})
 	}
 	mr := r.Sub()
 	for i := 0; i < nMarks; i++ {
@@ -1550,7 +1583,9 @@ func c1Worker(c *Cfg, w, n, start int) {
 		}
 		sl := slots[i]
 		x.idx = i
-		if sl.refs {
+		if sl.lists {
+			sl.prog.src = (&c1listgen{r: sl.gen.Sub()}).Program()
+		} else if sl.refs {
 			// the HOLDERS (#A, #B, A, B and their aliases) must be error-free: references INTO
 			// erroneous structs are the error-placement findings and would drown the stream;
 			// the uses (y z w v u) may be erroneous, e.g. by a field a closed holder rejects
